@@ -111,6 +111,8 @@ def canon_operand(body, op, env_alias, depth=0):
 def render_const(op):
     if "static" in op:
         return "static:" + norm(op["static"])
+    if "enum_variant" in op:
+        return "&" + op["enum_variant"]
     for key in ("int", "bool", "char", "str"):
         if key in op:
             return repr(op[key])
